@@ -745,7 +745,52 @@ theorem writeThrough_violates_discard_hypothesis :
   have := h [] [] (.register "p" 7 true) (by intro k v hk; simp [pget] at hk) "p" 7 (by decide)
   simp [pget] at this
 
+/-- … and ONLY discarded executions expose it: on process histories in which every executed write is committed (delivered
+transactions that succeed, lookups — delivered or served —, restarts; no served / failing registration or removal) the
+write-through cache is invisible: nodes with any coherent caches and equal block histories agree on state and outputs -/
+theorem writeThrough_cache_invisible_without_discards (evs₁ evs₂ : List (Ev PairMsg))
+    (c₁ : ∀ e ∈ evs₁, committing e = true) (c₂ : ∀ e ∈ evs₂, committing e = true) (hb : blocksOf evs₁ = blocksOf evs₂)
+    (m₁ m₂ s : Pairs) (h₁ : coherent m₁ s) (h₂ : coherent m₂ s) :
+    (runEvs writeThroughHandler [] ⟨m₁, s⟩ evs₁).1.st = (runEvs writeThroughHandler [] ⟨m₂, s⟩ evs₂).1.st ∧
+    (runEvs writeThroughHandler [] ⟨m₁, s⟩ evs₁).2 = (runEvs writeThroughHandler [] ⟨m₂, s⟩ evs₂).2 := by
+  have hinit : ∀ s : Pairs, coherent [] s := by intro s k v hk; simp [pget] at hk
+  have hdel : ∀ (m s : Pairs) (i : PairMsg), committing (.deliver i) = true → coherent m s →
+      coherent (writeThroughHandler m s i).1 (writeThroughHandler m s i).2.1 := by
+    intro m s i hc hm
+    cases i with
+    | register k v ok =>
+      simp only [committing] at hc; subst hc
+      exact FxVerif.Proofs.C17.coherent_pset m s k v hm
+    | remove k ok =>
+      simp only [committing] at hc; subst hc
+      exact FxVerif.Proofs.C17.coherent_pdel m s k hm
+    | use k =>
+      have := FxVerif.Proofs.C17.writeThrough_use m s k hm
+      rw [this.1]; exact this.2
+  have hserve : ∀ (m s : Pairs) (i : PairMsg), committing (.serve i) = true → coherent m s → coherent (writeThroughHandler m s i).1 s := by
+    intro m s i hc hm
+    cases i with
+    | register k v ok => simp [committing] at hc
+    | remove k ok => simp [committing] at hc
+    | use k => exact (FxVerif.Proofs.C17.writeThrough_use m s k hm).2
+  have hindep : ∀ (m m' s : Pairs) (i : PairMsg), coherent m s → coherent m' s →
+      (writeThroughHandler m s i).2 = (writeThroughHandler m' s i).2 := by
+    intro m m' s i hm hm'
+    cases i with
+    | register k v ok => rfl
+    | remove k ok => rfl
+    | use k => rw [(FxVerif.Proofs.C17.writeThrough_use m s k hm).1, (FxVerif.Proofs.C17.writeThrough_use m' s k hm').1]
+  have r₁ := FxVerif.Proofs.C17.run_eq_pure_coherent_on writeThroughHandler [] coherent (fun e => committing e = true)
+    hinit hdel hserve hindep evs₁ ⟨m₁, s⟩ c₁ h₁
+  have r₂ := FxVerif.Proofs.C17.run_eq_pure_coherent_on writeThroughHandler [] coherent (fun e => committing e = true)
+    hinit hdel hserve hindep evs₂ ⟨m₂, s⟩ c₂ h₂
+  rw [r₁.1, r₁.2, r₂.1, r₂.2, hb]
+  exact ⟨rfl, rfl⟩
+
+
 -- non-vacuity
+example : committing (.deliver (.register "p" 7 true)) = true ∧ committing (.serve (.register "p" 7 true)) = false ∧
+    committing (.deliver (.register "p" 7 false)) = false ∧ committing (.serve (.use "p")) = true := by decide
 example : procSites.length ≥ 5 := by decide
 example : sliceFeeders.length ≥ 2 := by decide
 example : (run Sched.id ⟨[⟨"o1", 1, true, 5⟩, ⟨"o2", 1, true, 5⟩, ⟨"o3", 10, true, 5⟩], ["o1", "o2", "o3"], 7, [], [], 0⟩
